@@ -42,8 +42,18 @@ def _traversal_fn(P: Project, outer: str, inner: Optional[str]) -> FunctionInfo:
     q = f"{outer}.<locals>.{inner}"
     g = P.functions.get(q)
     if g is None:
-        # the traversal may have been written inline (no nested helper)
-        return f
+        # the helper may have been moved out of the method (module-level function or sibling method), or written inline
+        mod, cls = f.module.name, outer.rsplit(".", 1)[0]
+        cands = []
+        for c in ast.walk(f.node):
+            if isinstance(c, ast.Call):
+                d = dotted(c.func) or ""
+                for q2 in (f"{mod}.{d}", f"{cls}.{d.split('.')[-1]}" if d.startswith(("self.", "cls.")) else None):
+                    h = P.functions.get(q2) if q2 else None
+                    if h is not None and h is not f and h not in cands and any(
+                            isinstance(x, ast.Call) and dotted(x.func) == "isinstance" and len(x.args) == 2 and norm(x.args[1]) == "tuple" for x in ast.walk(h.node)):
+                        cands.append(h)
+        return cands[0] if len(cands) == 1 else f
     return g
 
 
